@@ -45,13 +45,13 @@ REAL_VS_STUB = {"real": ["torchsde.BrownianInterval/BrownianTree/BrownianPath ar
                          "numpy SeedSequence", "trampoline"],
                 "stub": ["torch.randn replaced by label vectors (mode law) / forced Levy draws (mode levy)",
                          "value cache wrapped by FaultyCache (forwarding)", "np.random.randint (entropy seam)"]}
-PROBES = ("law_runs", "levy_runs", "deep_sweeps", "levy_merged_mean", "gram_pairs", "overlapping_pairs", "H_checked", "bridge_W", "bridge_H", "whole_is_supplied",
+PROBES = ("law_runs", "levy_runs", "deep_sweeps", "levy_merged_mean", "point_evaluations", "gram_pairs", "overlapping_pairs", "H_checked", "bridge_W", "bridge_H", "whole_is_supplied",
           "cross_element_blocks", "levy_nodes_probed", "levy_foster", "levy_davie", "levy_root_probed", "levy_seeds_checked",
           "dyadic", "tol_grid", "tiny_cache", "labels_exhausted")
 STATE_MEASURE = "distinct final interval-tree shapes (hash of display_binary_tree dump)"
 
 MIX = {"uniform": 4, "sweep": 2, "adaptive": 2, "cluster": 1.5, "nested": 1.5, "requery": 1, "whole": 1, "triple": 3,
-       "tiny": 0.3}
+       "tiny": 0.3, "dyadic": 1.5, "point": 1.0}
 
 
 class LabelsExhausted(PassThrough):
@@ -97,9 +97,10 @@ def gen_case(seed, tier, idx):
     dom = domain(cfg)
     ro = st.get("ops")
     n = ro.choice([2, 4, 8, 16, 30, 45])
-    ops = [o for o in bm.gen_ops(ro, cfg, dom, n, MIX) if o["op"] == "q"][:60]
-    
+    ops = [o for o in bm.gen_ops(ro, cfg, dom, n, MIX) if o["op"] == "q" or (mode == "law" and o["op"] == "point")][:60]
     for o in ops:
+        if o["op"] != "q":
+            continue
         o["U"] = cfg["levy"] != "none"
         o["A"] = mode == "levy"
     bm.apply_warm_rep(cfg, ops)
@@ -228,18 +229,34 @@ def _run_law(case, log, probes):
                 front = torchsde.BrownianInterval(**kw)
                 dom = (t0, t1)
             elif cfg["front"] == "tree":
-                w0 = torch.zeros(size, dtype=torch.float64)
-                front = torchsde.BrownianTree(t0=t0, w0=w0, t1=t1, w1=W_sup, entropy=cfg["entropy"],
+                w0 = torch.full(size, 3.0, dtype=torch.float64)  # non-zero start value: only point evaluations add it
+                if W_sup is not None:
+                    w1 = W_sup + w0
+                    W_sup = w1 - w0  # the increment BrownianTree derives from (w0, w1), bit-for-bit
+                front = torchsde.BrownianTree(t0=t0, w0=w0, t1=t1, w1=None if W_sup is None else w1, entropy=cfg["entropy"],
                                               tol=xf(cfg["tol"]), pool_size=cfg["pool_size"])
                 dom = (t0, t1)
             else:
-                front = torchsde.BrownianPath(t0=t0, w0=torch.zeros(size, dtype=torch.float64))
+                w0 = torch.full(size, 3.0, dtype=torch.float64)
+                front = torchsde.BrownianPath(t0=t0, w0=w0)
                 dom = (t0, t0 + 1.0)
             cache, interval = seams.install_faulty_cache(front, plan)
             built = bm.Built(cfg, front, interval, plan, cache, dom, None)
             ex = bm.BMExec(built, log)
             have_U = cfg["levy"] != "none" and cfg["front"] == "interval"
+            w0_ = w0 if cfg["front"] in ("tree", "path") else None
             for i, op in enumerate(case["ops"]):
+                if op["op"] == "point":
+                    t = xf(op["t"])
+                    out = ex.point(t, op.get("faults"), i)
+                    if tuple(out.shape) != size:
+                        raise Violation("shape", {"msg": f"point form {tuple(out.shape)}"}, i)
+                    if w0_ is not None:
+                        out = out - w0_
+                    if dom[0] < t:
+                        probes["point_evaluations"] += 1
+                        answers.append((0, dom[0], t, out.reshape(L, numel), i))
+                    continue
                 ta, tb = xf(op["ta"]), xf(op["tb"])
                 if op.get("og"):
                     continue
@@ -266,6 +283,12 @@ def _run_law(case, log, probes):
                 if W_sup is not None and not torch.equal(res["W"], W_sup):
                     raise Violation("bridge_whole_W", {"err": bm.maxabs(res["W"] - W_sup)}, "whole")
                 Ww = res["W"].reshape(L, numel)
+                if H_sup is not None:
+                    if res["U"] is None:
+                        raise Violation("bridge_whole_H", {"msg": "no U returned although H was supplied"}, "whole")
+                    H_ret = res["U"] / (dom[1] - dom[0]) - 0.5 * res["W"]
+                    if bm.maxabs(H_ret - H_sup) > 1e-12 * max(bm.maxabs(H_sup), 1e-300):
+                        raise Violation("bridge_whole_H", {"err": bm.maxabs(H_ret - H_sup)}, "whole")
                 answers.append((0, dom[0], dom[1], Ww, "whole"))
                 if res["U"] is not None:
                     answers.append((1, dom[0], dom[1], res["U"].reshape(L, numel) / (dom[1] - dom[0]) - 0.5 * Ww, "whole"))
@@ -497,7 +520,7 @@ def run_case(case, keep_log=False):
     span = xf(cfg["t1"]) - xf(cfg["t0"])
     stats = {"faults": fired, "probes": probes,
              "counters": {"ops": len(case["ops"]), "queries": n_q,
-                          "sde_time": sum(xf(o["tb"]) - xf(o["ta"]) for o in case["ops"])},
+                          "sde_time": sum(xf(o["tb"]) - xf(o["ta"]) for o in case["ops"] if o["op"] == "q")},
              "states": states}
     out = {"violation": violation, "digest": log.digest(), "stats": stats}
     if keep_log:
